@@ -81,12 +81,34 @@ def pre(tier, seed):
                                               "not its own: the next operation that writes into the buffer writes into that memory"})
             if meth in ("Compare", "Length", "Capacity") and t == {"Compare": 4}.get(meth, 2) and fr:
                 foreign_keys.append({"function": name, "stored_through": t, "derived_from": fr, "means": "a scalar result carries memory of an argument"})
+    # ... and for the generated Copy / CopyTo / cpy: which of them puts memory of the SOURCE into the destination (a pointer
+    # of the source assigned, appended or used as a key instead of a new cell with the value copied)
+    cparams = {"cpy": (["inspector", "buf", "l (destination)", "r (source)"], 2, (1, 2)),
+               "CopyTo": (["inspector", "src", "dst", "buf"], 2, (2, 3))}
+    sharing_copies = []
+    for i in sorted(fns):
+        name = fns[i][0]
+        if "/testobj_ins." not in name or "Inspector)." not in name:
+            continue
+        meth = name.rsplit(").", 1)[-1]
+        if meth in cparams:
+            names, t, allowed = cparams[meth]
+            for tt, fr in sf.get(i, []):
+                if tt == t and [q for q in fr if q not in allowed]:
+                    sharing_copies.append({"function": name, "parameters": names, "stored_through": t, "derived_from": fr,
+                                           "means": "what the copy stores into the destination may be memory of the SOURCE (a pointer element, "
+                                                    "pointer map value or pointer key taken over instead of a new cell): a goroutine writing to its "
+                                                    "private copy then writes the shared value"})
+        elif meth == "Copy" and 1 in rf.get(i, []):
+            sharing_copies.append({"function": name, "results_may_be_derived_from_parameters": rf.get(i, []),
+                                   "means": "the value Copy returns may be memory of its source"})
     return {"file": "coq/Gen/FootprintFacts.v", "functions": len(fns), "roots": len(roots), "reachable": len(seen),
             "changed_since_commit": changed, "reachable_functions_storing_to_globals": offenders,
             "copy_primitives_handing_out_their_source": handing_out,
             "functions_writing_through_a_parameter": len(sf),
             "read_operations_writing_what_they_read": writing_reads,
-            "scratch_parameters_left_with_foreign_memory": foreign_keys}
+            "scratch_parameters_left_with_foreign_memory": foreign_keys,
+            "generated_copies_storing_their_source": sharing_copies}
 
 
 def post(tier, seed, cov, result):
@@ -105,7 +127,7 @@ def post(tier, seed, cov, result):
     else:
         rounds = 6 if tier == "quick" else 60
         for i in range(rounds):
-            g, n = (8, 552) if i % 2 == 0 else (32, 166)
+            g, n = (8, 636) if i % 2 == 0 else (32, 192)
             p = subprocess.run([os.path.join(ROOT, "build", "racerun"), str(seed * 100 + i), str(g), str(n)],
                                stdout=subprocess.PIPE, stderr=subprocess.PIPE, env=dict(env, GORACE="halt_on_error=1 exitcode=66"))
             o = p.stdout.decode().strip()
@@ -114,7 +136,8 @@ def post(tier, seed, cov, result):
                 race = p.returncode == 66 or b"DATA RACE" in p.stderr
                 problem = ("data race reported by the race detector" if race else
                            "a call returned something else than when run alone, a private value did not hold what its goroutine stored, "
-                           "or a shared value is not what it was before the goroutines started (read operations changed it)") + \
+                           "or a shared value is not what it was before the goroutines started (a read operation, or a write to a private value "
+                           "copied from it, changed it)") + \
                           ": seed %d goroutines %d ops %d: %s %s" % (seed * 100 + i, g, n, o[:600], p.stderr.decode()[:1500])
                 if race:
                     # the same schedule seed once more without halting at the first report: which results / stored texts it costs
@@ -133,7 +156,8 @@ def post(tier, seed, cov, result):
         os.makedirs(os.path.join(ROOT, "replays"), exist_ok=True)
         static = {k: v for k, v in (cov.get("regenerated") or {}).items()
                   if k in ("reachable_functions_storing_to_globals", "copy_primitives_handing_out_their_source",
-                           "read_operations_writing_what_they_read", "scratch_parameters_left_with_foreign_memory") and v}
+                           "read_operations_writing_what_they_read", "scratch_parameters_left_with_foreign_memory",
+                           "generated_copies_storing_their_source") and v}
         json.dump({"property": "C20", "problem": problem, "how": "build/racerun <seed> <goroutines> <ops>  (built with go build -race ./cmd/racerun)",
                    "what_the_extracted_facts_say": static},
                   open(os.path.join(ROOT, path), "w"), indent=1)
@@ -159,6 +183,13 @@ CHECK = Check(
           "pointer-keyed maps, slices of every declared form and the built-in containers of the SAME shared values (map keys on the "
           "heap, as decoded data). Every shared value of the run is compared, after the concurrent run and after the runs alone, with "
           "its rendering taken before the goroutines started, and every key its maps hand out must be found when looked up. "
+          "Fourth population: for EVERY shipped inspector type (13), templates built by reflection over the type - every field, "
+          "several elements per slice and map, every pointer (fields, slice elements, map values, map keys) with a cell of its own, "
+          "a second template with some pointers nil -; each goroutine copies them (Copy, CopyTo, Reset+CopyTo) and writes to leaves "
+          "chosen by walking its private value - half of the time behind a pointer -: Set, SetWithBuffer with the value's own "
+          "buffer, Reset, the owner's direct writes through its own pointers (pointer keys included), while the others Get / Compare / "
+          "DeepEqual / Copy the templates at their leaves' paths; a private value must be, through every pointer, what its "
+          "goroutine left there, and the templates take part in the before / after comparison (which follows pointers). "
           "distinct = distinct (seed, goroutines) run."),
     assumptions=["the Go standard library, encoding/json and the runtime are outside the extracted graph (trusted)",
                  "CHA over-approximates interface and function-value calls; reflection-based calls do not occur in the module",
@@ -176,7 +207,9 @@ MANIFEST = {
              "computes alone (C20_interleaving, induction over the merged sequence); over the extracted 'may write through parameter t' "
              "facts the read operations write through no parameter but their result / scratch parameters - never through the value read - "
              "and what Loop leaves in the caller's key buffer is memory of that buffer, never of the value looped over "
-             "(C20_reads_never_write_what_they_read, C20_deep_equal_writes_nothing, C20_loop_keys_live_in_the_key_buffer). Explored, not proved: race-detector runs of "
+             "(C20_reads_never_write_what_they_read, C20_deep_equal_writes_nothing, C20_loop_keys_live_in_the_key_buffer); what the generated "
+             "Copy / CopyTo / cpy store into the destination is derived from the destination and the buffer, never from the source - a "
+             "private copy owns every cell its pointers reach (C20_copies_store_nothing_of_their_source). Explored, not proved: race-detector runs of "
              "concurrent readers on shared values and writers on private values, results compared with sequential execution."),
     "note": ("The model cannot exhibit data races below call granularity (scheduler, memory model); that the generated methods' "
              "footprints are what the theorem assumes (reads: the value; writes: destination and buffer) rests on C12/C03/C06/C08 and on "
